@@ -2,8 +2,11 @@
 (* The environment: a standards-conformant SNMP agent over a finite MIB
    (RFC 3416 section 4.2: GetRequest, GetNextRequest, GetBulkRequest), and a
    stateless *faulty* agent given by an arbitrary successor function F.
-   A binding is a record [oid, eomv]; values are irrelevant to the walk
-   logic (they are injective functions of the OID in the harness). *)
+   A binding is a record [oid, eomv]; the walk logic must not depend on the
+   values: in the harness they are injective functions of the OID or - the
+   `volatile` scenarios, Walk!Volatile - differ in every binding served, since
+   RFC 3416 asks the agent for no snapshot (F28: two bindings of one instance
+   in one response carried different values and the client tried to order them). *)
 EXTENDS Oid
 
 EOMVTOK == <<0>>        \* marker used as F's "endOfMibView" answer
